@@ -245,6 +245,11 @@ def c02(tier, seed):
     # every event of random histories: logged views = views recomputed by TLC from the logged order table alone
     prof = {"discipline": True, "audit_every": 1, "w": {"toggle": 0.6, "reload": 0.4, "modify": 4}}
     ck.traces_stage("rand_views", "record_book", prof, files=8 if q else 64, runs=3 if q else 6, ops=120)
+    if not q:
+        # a deep book: several hundred orders queued at one price level (level counts and order ids above 255), partial sweeps
+        deep = {"discipline": True, "nprices": 2, "p_passive": 0.97, "p_market": 0.02, "audit_every": 400, "levels": [3],
+                "w": {"cancel": 0.5, "modify": 0.5, "event": 0.5, "create": 0.5, "place": 0.5, "resettv": 0.1, "settime": 0.1}}
+        ck.traces_stage("rand_deep_book", "record_book", deep, files=2, runs=1, ops=1400, timeout=3000)
     ck.assumptions.append("ViewsO (recomputation from the order table alone) is evaluated by TLC on the logged order table at every event (audit_every = 1)")
     python_view(ck, q)
     return ck.finish("model_checking", LEVEL_TEXT, RULE + "two-sided book states",
